@@ -37,6 +37,7 @@ type FuncSpec struct {
 	Modifies []string // heap specs; nil = infer; ["nothing"]
 	HasMod   bool
 	Preserves []string // heaps whose pre-existing objects are unchanged ("all" = every heap the function may write)
+	LoopUse  map[int][]*Clause
 	LoopInv  map[int][]*Clause
 	Unroll   map[int]int
 	LoopMod  map[int][]string
@@ -61,6 +62,7 @@ type GhostUpdate struct {
 }
 
 type PureFunc struct {
+	Axiom  bool // an assumed, named, parametric fact: only usable through `use` clauses (explicit instantiation)
 	Name   string
 	Params []Binder
 	Ret    TypeExpr
@@ -195,7 +197,7 @@ func (db *SpecDB) parseFile(file, pkgPath, text string) {
 			}
 		case "func":
 			key := strings.TrimSpace(rest)
-			cur = &FuncSpec{Pkg: pkgPath, Key: key, Props: append([]string{}, props...), LoopInv: map[int][]*Clause{}, Unroll: map[int]int{}, LoopMod: map[int][]string{}, File: file, Line: l.n, Mode: mode}
+			cur = &FuncSpec{Pkg: pkgPath, Key: key, Props: append([]string{}, props...), LoopInv: map[int][]*Clause{}, LoopUse: map[int][]*Clause{}, Unroll: map[int]int{}, LoopMod: map[int][]string{}, File: file, Line: l.n, Mode: mode}
 			k := pkgPath + ":" + key
 			if _, dup := db.Funcs[k]; dup {
 				db.errf(file, l.n, "duplicate contract for %s", k)
@@ -240,6 +242,20 @@ func (db *SpecDB) parseFile(file, pkgPath, text string) {
 				gv.Init = e
 			}
 			db.Ghosts[name] = gv
+		case "axiom":
+			cur = nil
+			i := strings.Index(rest, "):")
+			if i < 0 {
+				db.errf(file, l.n, "axiom needs 'name(params): expr'")
+				continue
+			}
+			pf, err := parsePure("func " + rest[:i+1] + " bool = " + rest[i+2:])
+			if err != nil {
+				db.errf(file, l.n, "axiom: %v", err)
+				continue
+			}
+			pf.Pkg, pf.Src, pf.Axiom = pkgPath, l.s, true
+			db.Pure[pf.Name] = pf
 		case "invariant":
 			cur = nil
 			i := strings.Index(rest, ":")
@@ -363,6 +379,16 @@ func (db *SpecDB) parseClause(fs *FuncSpec, word, rest string, line int) error {
 				return fmt.Errorf("loop invariant: %v", err)
 			}
 			fs.LoopInv[n] = append(fs.LoopInv[n], &Clause{Kind: "invariant", Expr: e, Src: r3, Line: line, Loop: n})
+		case "use":
+			// explicit instance of an axiom, assumed on every back edge of the loop before the invariants are checked
+			e, err := parseExpr(r3)
+			if err != nil {
+				return fmt.Errorf("loop use: %v", err)
+			}
+			if c, ok := e.(*ECall); !ok || c == nil {
+				return fmt.Errorf("loop use: expected an axiom application")
+			}
+			fs.LoopUse[n] = append(fs.LoopUse[n], &Clause{Kind: "use", Expr: e, Src: r3, Line: line, Loop: n})
 		case "unroll":
 			k, err := strconv.Atoi(strings.TrimSpace(r3))
 			if err != nil {
